@@ -19,6 +19,8 @@ type c10Meta struct {
 	Imported                      string
 }
 
+type c10Shared struct{ Legal bool }
+
 // legal is the reference for "hooks whose parameter or error shape cannot fit the method are rejected".
 func (m c10Meta) legal() bool {
 	if m.HErr == 1 && m.MErr == 0 {
@@ -127,6 +129,18 @@ func init() {
 				cells = append(cells, c)
 			}
 		}
+		for i, v := range []struct{ first, second string }{
+			{"AConv(*S) (*D, error)", "BConv(*S) *D"},
+			{"AConv(*S) *D", "BConv(*S) (*D, error)"},
+			{"AConv(*S) (*D, error)", "BConv(*S) (*D, error)"},
+		} {
+			for pos := 0; pos < 2; pos++ {
+				kw := []string{":preprocess Hook", ":postprocess Hook"}[pos]
+				decls := "type S struct{ A int }\n\ntype D struct{ A int }\n\nfunc Hook(d *D, s *S) error { return nil }\n"
+				setup := scen.SetupFile(false, decls, nil, []scen.MethodDecl{{Notations: []string{kw}, Sig: v.first}, {Notations: []string{kw}, Sig: v.second}})
+				cells = append(cells, &scen.Cell{ID: fmt.Sprintf("c10shared_%d_%d", i, pos), Family: "C10-shared-hook", Files: map[string]string{"setup.go": setup}, Meta: c10Shared{Legal: i == 2}})
+			}
+		}
 		e.Rep.Rule("hook signature {destination by pointer/value} x {source by pointer/value} x {with/without error} x additional parameters {none, all, wrong count, wrong type} x {pre, post, both} x method shape style{return, arg} x source/destination pointer-ness x receiver x error result x additional arguments {0, 2}, " +
 			"plus imported hooks (exported, unexported, missing, unknown package); static: shapes that cannot fit the method (error-returning hook in a method without error result, additional-parameter count or type mismatch, unexported/missing imported hook) must be rejected, all others accepted; " +
 			"dynamic (reflect driver, instrumented hooks recording deep snapshots and pointer identities; a by-pointer preprocess hook scribbles a sentinel into every destination leaf): pre exactly once and first, seeing the destination as passed in / freshly zero and the function's own source; " +
@@ -154,6 +168,17 @@ func init() {
 				}
 				if !legal && o.Res.Exit == 0 {
 					return []report.Finding{{Key: fmt.Sprintf("C10|imported-illegal-accepted|loc=%d", fm.Loc), What: "hook that cannot be used was accepted"}}
+				}
+				return nil
+			}
+			if sh, ok := o.Cell.Meta.(c10Shared); ok {
+				// per-method validation: the error shape must fit EVERY method that uses the hook
+				t.Family("C10-shared-hook", o.Res.Exit == 0, false)
+				if !sh.Legal && o.Res.Exit == 0 {
+					return []report.Finding{{Key: "C10|illegal-accepted|shared-error-hook", What: "an error-returning hook shared by two methods was accepted although one of the methods has no error result"}}
+				}
+				if sh.Legal && o.Res.Exit != 0 {
+					return []report.Finding{{Key: "C10|legal-rejected|shared-error-hook", What: clip(e.scrub(o.Res.Stderr, o.Dir), 300)}}
 				}
 				return nil
 			}
